@@ -1269,6 +1269,7 @@ type c16ChildSpec struct {
 	Saves     int
 	CrashSite string
 	CrashNth  int
+	FailWrite bool   // the last save's write of the temporary file fails (a value the YAML encoder refuses)
 	CopyTo    string // copy the main file to CopyTo/main.<j> after save j
 }
 
@@ -1338,6 +1339,9 @@ func c16ChildMain() {
 		if j == spec.Saves && spec.CrashSite != "" {
 			dastard.VerifC16SetCrashPoint(spec.CrashSite, 1)
 		}
+		if j == spec.Saves && spec.FailWrite {
+			last["UNSAVABLE"] = c16Unsavable{X: j}
+		}
 		dastard.VerifC16SaveState(last)
 		if spec.CopyTo != "" {
 			if b, err := os.ReadFile(mainf); err == nil {
@@ -1346,6 +1350,15 @@ func c16ChildMain() {
 		}
 	}
 	os.Exit(0)
+}
+
+// c16Unsavable has a JSON text like any status value, but the YAML encoder refuses it: viper.WriteConfigAs
+// then fails AFTER it has created/truncated the file it writes to — what a full disk, an exceeded quota or
+// an I/O error do to the write of the temporary file.
+type c16Unsavable struct{ X int }
+
+func (c16Unsavable) MarshalYAML() (interface{}, error) {
+	return nil, fmt.Errorf("c16: this value cannot be written as YAML")
 }
 
 // c16ChildRejected is "a run of dastard in which a client sent a configuration request that was
@@ -1472,7 +1485,10 @@ func c16GenK(r *Rng, tier string, idx int) (string, func() string) {
 	site := ""
 	switch c := r.Intn(100); {
 	case c < 8:
-	case c < 30 && len(facts.writeAt) > 0:
+	case c < 20 && len(facts.writeAt) > 0:
+		// fault injection: the write fails (the file is left created/truncated: 0 of its bytes); no kill
+		crash = fmt.Sprintf("fail %d 0", facts.writeAt[r.Intn(len(facts.writeAt))])
+	case c < 38 && len(facts.writeAt) > 0:
 		w := facts.writeAt[r.Intn(len(facts.writeAt))]
 		crash = fmt.Sprintf("inw %d %d", w, r.Intn(4))
 	case len(facts.sites) > 0:
@@ -1541,6 +1557,8 @@ func c16GenK(r *Rng, tier string, idx int) (string, func() string) {
 		var inw []string
 		if strings.HasPrefix(crash, "at ") {
 			spec.CrashSite = site
+		} else if strings.HasPrefix(crash, "fail ") {
+			spec.FailWrite = true
 		} else if strings.HasPrefix(crash, "inw ") {
 			inw = strings.Fields(crash)
 			// a kill inside the write of the temporary file: stop right after it and cut the file
